@@ -69,7 +69,9 @@ META = {
         "_render_tokens always calls). R3 HTML attribute values are never None. R4 text re-entering nested_render_text that is not a "
         "substring of the current text (file content, Jinja output - also through a compiled-template helper) sits behind a paired "
         "in-progress guard (try/finally or a @contextmanager that brackets its yield); the guard of included files must be keyed by an "
-        "absolute normalised path (normpath/abspath/realpath/resolve). R5 every while loop outside the option tokenizer has "
+        "absolute normalised path (normpath/abspath/realpath/resolve). Asserts are discharged when they restate a proved fact: the docutils "
+        "directive-result contract wherever the check lives, and `assert x is not None` inside a consumer loop whose generator provably yields "
+        "a key-typed token before every value-typed one (yield-protocol check on both CFGs). R5 every while loop outside the option tokenizer has "
         "a recognised progress variant (shrinking list, bounded counter, find-then-slice, stream read / flag from a read, counter in the "
         "candidate, tree descent, tree worklist, popping test); a cyclic path that provably changes nothing the tests read is a violation. "
         "R6 YAML values and values read out of them are narrowed, validated as mappings, or used inside a catching try. R7 a docutils node "
@@ -87,10 +89,10 @@ META = {
         "exceptions inside third-party directive/role bodies and inside docutils/Sphinx transforms; termination and totality of markdown-it "
         "itself beyond the catch-all block rule (R11); value-dependent builtins such as max() of an empty sequence or pop() of an empty list; "
         "None values placed into node lists (C14.R5); loops whose progress goes through helper functions or aliases (ANALYSIS-ERROR); "
-        "recursion DEPTH on pathologically nested input - a runtime quantity: PyYAML on front matter with thousands of nested brackets, "
-        "Element.deepcopy/render in html_to_nodes on ~1200 nested inline tags, deeply nested block quotes/lists in the renderer - can end in "
-        "RecursionError although every recursion is on a strictly smaller sub-structure (R4 only decides re-entry on text that is NOT a "
-        "sub-structure); NUL bytes introduced by other means than the catalogued percent-decoders."
+        "recursion DEPTH on pathologically nested input is decided for the catalogued PyYAML entry points only (yaml.safe_load/load: "
+        "RecursionError is part of the catalogue entry because Composer.compose_node recurses per nesting level, read from yaml/composer.py); "
+        "Element.deepcopy/render in html_to_nodes on ~1200 nested inline tags, deeply nested block quotes/lists in the renderer and other "
+        "recursive walks over a finite structure stay not decided (R4 only decides re-entry on text that is NOT a sub-structure); NUL bytes introduced by other means than the catalogued percent-decoders."
     ),
     "trusted_base": [
         "CPython ast",
@@ -1087,6 +1089,21 @@ def _loop_variant(w: ast.While, fi: FunctionInfo, corpus: Corpus) -> str | None:
             )
             if not refills:
                 return f"every evaluation of the test pops an element of {coll}, which the body never refills (an empty collection ends the loop with IndexError)"
+    # `while True:` that every cyclic path leaves through `if self.eof: return/break` unless it first reads the stream
+    if isinstance(w.test, ast.Constant) and w.test.value and fi.cls is not None:
+        exits = [
+            st for st in ast.walk(w)
+            if isinstance(st, ast.If) and st.body and isinstance(st.body[-1], (ast.Return, ast.Break, ast.Raise))
+            and any(unparse(x) == "self.eof" for x in ([st.test] + (st.test.values if isinstance(st.test, ast.BoolOp) and isinstance(st.test.op, ast.Or) else [])))
+        ]
+
+        def reads_stream(c):
+            return isinstance(c, ast.Call) and isinstance(c.func, ast.Attribute) and c.func.attr in ("read_buffer", "readline") and unparse(c.func.value) == "self"
+
+        if exits and not _cyclic_path_avoiding(w, fi, lambda st: any(st is e for e in exits)) and _every_cyclic_path(w, fi, reads_stream):
+            rb = fi.cls.methods.get("read_buffer")
+            if rb is not None and any(isinstance(s_, ast.Assign) and unparse(s_.targets[0]) == "self.eof" and unparse(s_.value) == "True" for s_ in walk_local(rb.node)):
+                return "every cyclic path tests `self.eof` (and leaves when it is set) and then reads the stream; read_buffer() sets the flag when the stream returns b'' (finite stream assumed)"
     # the flag in the test is recomputed on every cyclic path from the result of a stream read
     flag = test.operand if isinstance(test, ast.UnaryOp) and isinstance(test.op, ast.Not) else None
     if isinstance(flag, ast.Attribute):
@@ -2280,6 +2297,12 @@ def r11_disable_syntax(corpus: Corpus, rep: Report, tier: str):
                         src_field = lp.iter.attr
             elif isinstance(a0, ast.Attribute) and a0.attr in fields:
                 src_field = a0.attr
+            elif isinstance(a0, ast.Call) and dotted(a0.func) in ("list", "tuple", "sorted", "set", "frozenset") and len(a0.args) == 1 and isinstance(a0.args[0], ast.Attribute) and a0.args[0].attr in fields:
+                src_field = a0.args[0].attr  # the whole collection in one call
+            comp_filter = None
+            if isinstance(a0, (ast.ListComp, ast.GeneratorExp, ast.SetComp)) and len(a0.generators) == 1 and isinstance(a0.generators[0].iter, ast.Attribute) and a0.generators[0].iter.attr in fields and isinstance(a0.generators[0].target, ast.Name) and isinstance(a0.elt, ast.Name) and a0.elt.id == a0.generators[0].target.id:
+                src_field = a0.generators[0].iter.attr
+                comp_filter = a0.generators[0]
             if isinstance(a0, (ast.Constant, ast.List, ast.Tuple)) and all(isinstance(x, ast.Constant) for x in ([a0] if isinstance(a0, ast.Constant) else a0.elts)):
                 vals = [a0.value] if isinstance(a0, ast.Constant) else [x.value for x in a0.elts]
                 n += 1
@@ -2311,6 +2334,17 @@ def r11_disable_syntax(corpus: Corpus, rep: Report, tier: str):
 
             guarded = False
             unknown = None
+            if comp_filter is not None:
+                from ..flow import facts as _atomic
+
+                for t_ in comp_filter.ifs:
+                    for t, pol in _atomic(t_, True):
+                        if not pol and names_catch_all(t):
+                            guarded = True
+                        elif pol and isinstance(t, ast.Compare) and len(t.ops) == 1 and isinstance(t.ops[0], (ast.NotEq, ast.NotIn)):
+                            flipped = ast.Compare(left=t.left, ops=[ast.Eq() if isinstance(t.ops[0], ast.NotEq) else ast.In()], comparators=t.comparators)
+                            if names_catch_all(flipped):
+                                guarded = True
             for t, pol in _facts_at(fi, c):
                 if isinstance(a0, ast.Name) and any(isinstance(x, ast.Name) and x.id == a0.id for x in ast.walk(t)):
                     if not pol and names_catch_all(t):
@@ -3105,6 +3139,16 @@ def mutants(corpus: Corpus):
         out.append(Mutant("c01-download-target-nul-test-dropped", "C01.R1", sx_.rel, splice(sx_.src, iff.test, "False"), expect="download_reference("))
     else:
         out.append(("c01-download-target-nul-test-dropped", "render_link_path has no NUL test"))
+    # --- the RecursionError repair (6b9f5b4) reverted at its three yaml.safe_load sites ---
+    for modname, q, tag in (("config.main", "read_topmatter", "topmatter"), ("mdit_to_docutils.base", "DocutilsRenderer.render_front_matter", "front-matter"), ("parsers.directives", "_parse_directive_options", "as-yaml")):
+        m_ = corpus.mod(modname)
+        f = m_.func(q)
+        h = find_node(f, lambda n: isinstance(n, ast.ExceptHandler) and n.type is not None and "YAMLError" in unparse(n.type))
+        if h is not None and isinstance(h.type, ast.Tuple) and any(unparse(e) == "RecursionError" for e in h.type.elts):
+            kept = ", ".join(unparse(e) for e in h.type.elts if unparse(e) != "RecursionError")
+            out.append(Mutant(f"c01-yaml-recursion-handler-reverted-{tag}", "C01.R1", m_.rel, splice(m_.src, h.type, f"({kept})"), expect="|RecursionError|"))
+        else:
+            out.append((f"c01-yaml-recursion-handler-reverted-{tag}", f"{q}: the YAML handler does not name RecursionError"))
     # --- include cycle guard keyed by a path that is not normalised (R4) ---
     f = mk.func("MockIncludeDirective.run")
     npc = find_node(f, lambda n: isinstance(n, ast.Call) and (dotted(n.func) or "").endswith("normpath") and isinstance(parent(n), ast.Assign) and isinstance(parent(n).targets[0], ast.Name))
